@@ -118,10 +118,9 @@ func (en *engine) judge(c *ev.Case, clause string, pl plan, val reflect.Value) s
 	}
 	en.tripsBy[pl.src]++
 	m := o.manner()
-	if pl.send != nil && pl.send.mode == sendClientThenReq && pl.src.isText() {
-		// merge of client-level and request-level parameters: not stated anywhere, only counted
-		e.Stat("client_then_request_struct|"+sourceName[pl.src]+"|"+map[bool]string{true: "bound-the-request-level-value", false: "bound-something-else"}[m == ""], 1)
-		return ""
+	if p.scalarsOnly && m == "" {
+		// what the server made of slices sent at both levels: not stated, only counted
+		e.Stat("client_then_request_struct|"+sourceName[pl.src]+"|slices-"+map[bool]string{true: "differ-from-the-request-level-value", false: "equal-the-request-level-value"}[p.slicesDiffer], 1)
 	}
 	if m == "" {
 		if o.status != 200 {
@@ -416,6 +415,7 @@ func run(e *ev.Env) {
 	}
 
 	en.keys()
+	en.twoSources()
 	// en.splitScalar() is not run: the statement covers comma-free values only under splitting (see extra.go)
 	en.totality()
 	en.mustFail()
@@ -607,9 +607,6 @@ func runRace(e *ev.Env) {
 					p := &probe{src: pl.src, op: pl.op, auto: pl.auto, typ: pl.typ, want: val, send: pl.send, pre: pl.pre, hdrs: pl.hdrs, where: pl.where}
 					o := rg[g].getCfg(pl.cfg()).roundTrip(p)
 					trips[g]++
-					if pl.send != nil && pl.send.mode == sendClientThenReq {
-						continue // observed only (see judge)
-					}
 					if m := o.manner(); m != "" && len(fails[g]) < 3 {
 						fails[g] = append(fails[g], failure{pl, val, m})
 					}
